@@ -96,8 +96,13 @@ func RandTemplate(r *rand.Rand, pool []*entities.InfoElement, maxFields int) []*
 
 func RandVals(r *rand.Rand, ies []*entities.InfoElement, maxVar int) [][]int {
 	vals := make([][]int, len(ies))
+	allZero := r.Intn(8) == 0 // a record whose every value is zero / empty (it must still be a record)
 	for i, ie := range ies {
-		vals[i] = gen.Abs(r, ie, maxVar)
+		if allZero {
+			vals[i] = gen.Zero(ie)
+		} else {
+			vals[i] = gen.Abs(r, ie, maxVar)
+		}
 	}
 	return vals
 }
